@@ -749,6 +749,9 @@ func (w *Worker) runPath(it WorkItem, seed uint64) {
 		panic(engineError{fmt.Sprintf("non-deterministic replay: prefix of %d decisions, only %d consumed", len(e.prefix), e.pos)})
 	}
 	if completed {
+		// the implicit obligation of every harness: the path ends without an uncaught panic
+		e.res.Obligations++
+		e.res.Discharged++
 		h := prefixHash(e.prefix) ^ seed
 		// The path's own feasibility is re-checked by the solver (guards the local evaluator
 		// and the byte-domain pre-filter): always when the solver took part in the path,
